@@ -212,7 +212,14 @@ type EntReaders<'w, 's> = (
 type Access<'w, 's> = (
     ReactiveMut<'w, 's, Comp<0>>, ReactiveMut<'w, 's, Comp<1>>,
     ReactResMut<'w, Rs<0>>, ReactResMut<'w, Rs<1>>,
+    // A param with non-trivial validation (`valid 0|1` scenario lines empty / fill the match): the crate runs its
+    // systems whether or not Bevy's `validate_param` holds, and never loses them.
+    Populated<'w, 's, Entity, With<VMark>>,
 );
+
+/// Marks the one entity matched by every scripted system's `Populated` param.
+#[derive(Component)]
+struct VMark;
 
 fn opt(v: Option<u32>) -> String { v.map(|x| x.to_string()).unwrap_or("-".into()) }
 fn opt_name(v: Option<Entity>) -> String { v.map(name_of).unwrap_or("-".into()) }
@@ -772,7 +779,8 @@ fn quiescent(world: &mut World)
         }
         log(format!("qt {}", items.join(" ")));
         let named_alive = named.iter().filter(|e| alive(world, **e)).count();
-        log(format!("qx {}", world.entities().len() as usize - named_alive));
+        // unnamed entities other than the harness's own `VMark` entity
+        log(format!("qx {}", world.entities().len() as usize - named_alive - 1));
         log(format!("ql {}", named.iter().map(|e| format!("{}{}",
             bit(bevy_cobweb::verif::has_entity_world_local::<Ewr<0>>(world, *e)),
             bit(bevy_cobweb::verif::has_entity_world_local::<Ewr<1>>(world, *e)))).collect::<Vec<_>>().join(",")));
@@ -909,6 +917,7 @@ fn run_scenario(path: &str)
         app.insert_react_resource(Rs::<0>(0));
         app.insert_react_resource(Rs::<1>(0));
         app.init_resource::<EntityReactionProbe>();
+        let vmark = app.world_mut().spawn(VMark).id();
         for (k, d) in sc.wrs.iter().enumerate()
         {
             let name = next_system_name();
@@ -944,6 +953,11 @@ fn run_scenario(path: &str)
         for (t, op) in sc.tops.iter().enumerate()
         {
             quiescent(app.world_mut());
+            for (at, on) in sc.valid.iter()
+            {
+                if *at != t { continue }
+                if *on { app.world_mut().entity_mut(vmark).insert(VMark); } else { app.world_mut().entity_mut(vmark).remove::<VMark>(); }
+            }
             if let STop::AppReactor(d, ts) = op { add_app_reactor(&mut app, t, *d, ts); continue }
             // a whole frame through the real schedules: `Last` = garbage collection, then the removal / despawn poll
             if let STop::Update = op { log(format!("top {t}")); app.update(); continue }
